@@ -399,11 +399,21 @@ def rb_scripts(cx, schs):
             r = rng.random()
             if live == 0 or r < (0.75 if live < target else 0.3):
                 q.append("i%d" % rng.randrange(-dom, dom)); live += 1
-            elif r < 0.9:
+            elif r < 0.88:
                 q.append("u%d" % rng.randrange(live)); live -= 1
-            else:
+            elif r < 0.94:
                 q.append("m%d" % rng.randrange(live))
+            else:
+                # lyd_unlink_siblings from the middle (lyds_split), rarely from the leader
+                j = rng.randrange(live) if (live < 2 or rng.random() < 0.2) else rng.randrange(max(1, live // 2), live)
+                q.append("s%d" % j); live = j
         scripts.append(("random", q))
+    # (d) lyds_split exhaustively: n <= 7 distinct keys in a sampled insertion order, split at every position
+    for n in range(2, 8):
+        for _ in range(cx.n(3, 30)):
+            io = rng.sample(range(n), n)
+            for j in range(n):
+                scripts.append(("split", ["i%d" % (k + 1) for k in io] + ["s%d" % j, "i0", "i9"]))
     lines = ["%d sib rbs c %s %s %s" % (i, sch.desc_tok, sch.yang_tok, ",".join(q)) for i, (_, q) in enumerate(scripts)]
     lines.append("%d sib rbleak" % len(scripts))
     ri = cx.run_impl(WB, lines, component="sib")
@@ -411,7 +421,7 @@ def rb_scripts(cx, schs):
     crossed = 0
     for i, (kind, q) in enumerate(scripts):
         a, b = ri.get(str(i), ["err", "NoReply"]), rm.get(str(i), ["err", "NoReply"])
-        nrem = sum(1 for t in q if t[0] in "um")
+        nrem = sum(1 for t in q if t[0] in "ums")
         cx.count(("rbs", tuple(q)), nrem > 0, "sib:rbs:%s" % kind)
         cx.dist["sib:rbs:removals"] += nrem
         if a != b:
@@ -498,6 +508,53 @@ def rb_merges(cx, schs):
         cx.fail("sib", "red-black nodes / lyds_tree metadata leaked by bulk moves (lyds_merge)", {"reply": a, "attrib": None})
 
 
+def rb_destruct_merges(cx, schs):
+    """lyd_merge_siblings(…, LYD_MERGE_DESTRUCT) of two containers whose system-ordered leaf-lists were built by insert/unlink
+    scripts: the source tree goes to the lyds pool (lyds_pool_add), the instances the target lacks are moved by lyds_insert2
+    (reusing pooled red-black nodes and metadata; lyds_additionally_reuse_rb_tree when the target leader has no tree), the
+    rest is released (lyds_pool_clean).  Shape, metadata position, verdict and order vs the model; leak check at the end."""
+    sch = schs["S1"]
+    rng = cx.sub_rng("rbd")
+    cases = []
+    seqs = [list(t) for n in range(0, 4) for t in itertools.permutations([1, 2, 3, 4], n)]
+    for d in seqs:
+        for s_ in seqs:
+            if s_:
+                cases.append(("exh", ["i%d" % k for k in d], ["i%d" % k for k in s_]))
+
+    def rnd_script(n, dom):
+        vals = rng.sample(range(-dom, dom), min(n + 3, 2 * dom))
+        q, live = [], 0
+        for v in vals:
+            q.append("i%d" % v); live += 1
+            if live > 1 and rng.random() < 0.2:
+                q.append("u%d" % rng.randrange(live)); live -= 1
+        return q
+    for _ in range(cx.n(400, 5000)):
+        dom = rng.choice([4, 10, 40, 1000])
+        cases.append(("random", rnd_script(rng.choice([0, 1, 2, 3, 6, 12, 25]), dom), rnd_script(rng.choice([1, 2, 3, 6, 12, 25]), dom)))
+    lines = ["%d sib rbd c %s %s %s %s" % (i, sch.desc_tok, sch.yang_tok, ",".join(d) or "-", ",".join(s_) or "-") for i, (_, d, s_) in enumerate(cases)]
+    lines.append("%d sib rbleak" % len(cases))
+    ri = cx.run_impl(WB, lines, component="sib")
+    rm = cx.run_model(lines)
+    for i, (kind, d, s_) in enumerate(cases):
+        a, b = ri.get(str(i), ["err", "NoReply"]), rm.get(str(i), ["err", "NoReply"])
+        cx.count(("rbd", tuple(d), tuple(s_)), True, "sib:rbd:%s" % kind)
+        if a != b:
+            cx.disagree("sib-rbd", "rbd dst=%s src=%s" % (",".join(d), ",".join(s_)), " ".join(a)[:300], " ".join(b)[:300])
+            continue
+        toks = a[1:]
+        v = [t for t in toks if t.startswith("V")]
+        order = [int(t.split(":")[0]) for t in toks[toks.index("=") + 1:]] if "=" in toks else []
+        if (v and v[0] != "V0") or order != sorted(order):
+            cx.fail("sib", "red-black tree / sibling order broken after lyd_merge_siblings with LYD_MERGE_DESTRUCT (lyds pool)",
+                    {"dst": d, "src": s_, "state": " ".join(a)[:300], "attrib": None})
+    a, b = ri.get(str(len(cases)), ["err", "NoReply"]), rm.get(str(len(cases)), ["err", "NoReply"])
+    cx.count(("rbd", "leak"), True, "sib:rbd:leakcheck")
+    if a != b:
+        cx.fail("sib", "red-black nodes / lyds_tree metadata leaked by lyd_merge DESTRUCT (lyds pool)", {"reply": a, "attrib": None})
+
+
 def corpus_scripts():
     d = os.path.join(paths.CORPUS, "sib")
     out = []
@@ -559,6 +616,7 @@ def run(cx):
     rb_shapes(cx, schs)
     rb_scripts(cx, schs)
     rb_merges(cx, schs)
+    rb_destruct_merges(cx, schs)
 
     # 3. laws on the implementation
     perm_law(cx, schs)
